@@ -122,14 +122,6 @@ def _nul(prop, case, f):
     return isinstance(c, str) and c.startswith("str:") and c.endswith("\\x00'")
 
 
-@pred("row-filter-ignores-partition-conditions")
-def _rf_part(prop, case, f):
-    # api._column_filter skips every condition on a partition column (`continue`): inside an AND-group it counts as true, so rows
-    # of row groups kept for ANOTHER OR branch are selected although their partition value does not satisfy this branch.
-    # The mechanism can only ADD rows; a missing row is never explained by it.
-    return prop == "C13" and bool(f.get("partition_condition")) and f.get("kind") == "non_qualifying_row_returned"
-
-
 @pred("row-filter-v2-pages")
 def _rf_v2(prop, case, f):
     # read_data_page_v2 receives the whole row-group filter and the compact output: with nulls (definition levels decoded into
